@@ -170,11 +170,59 @@ def handleIds (l : Line) : IO Unit := do
   IO.println s!"obs {l.id} ids={joinOr idS} counts={joinOr counts} rcounts={joinOr rcounts} list={showList db} nup={db.uploads.length} all={db.results.length}"
   IO.println s!"spec {l.id} idsok=1"
 
+/-! kind=big: a large file given by generator parameters; the expectation is computed arithmetically
+   file = S:<fname>:<content> | B:<fname>:<uid line>:<count>.<line>,…:<last line> -/
+
+structure BigFile where
+  fname : Bytes
+  /-- number of benchmark lines, content length, byte sum (mod 2^32) -/
+  lines : Nat
+  len : Nat
+  sum : Nat
+
+def byteSum (b : Bytes) : Nat := b.foldl (fun a c => a + c.toNat) 0
+
+def parseBig (s : String) : Option BigFile :=
+  match s.splitOn ":" with
+  | ["S", fnm, c] =>
+    let b := hexD c
+    some { fname := hexD fnm, lines := Spec.UploadAtomic.benchCount b, len := b.length, sum := byteSum b }
+  | ["B", fnm, uidl, blocks, last] =>
+    let u := hexD uidl
+    let la := hexD last
+    let bs := (blocks.splitOn ",").filterMap fun x =>
+      match x.splitOn "." with
+      | [n, l] => n.toNat?.map fun n => (n, hexD l)
+      | _ => none
+    -- every block line and the last line is a benchmark line (checked on one copy)
+    let lines := (bs.map fun (n, l) => n * Spec.UploadAtomic.benchCount l).sum + Spec.UploadAtomic.benchCount la
+    let len := u.length + (bs.map fun (n, l) => n * l.length).sum + la.length
+    let sum := byteSum u + (bs.map fun (n, l) => n * byteSum l).sum + byteSum la
+    some { fname := hexD fnm, lines := lines, len := len, sum := sum }
+  | _ => none
+
+def handleBig (l : Line) : IO Unit := do
+  let user := hexD (l.getD "user")
+  let env : Env := { day := 0, user := user, time := Bytes.ofString "2006-01-02T15:04:05Z" }
+  let files := ((l.getD "files").splitOn ";").filterMap parseBig
+  if l.getD "accepted" != "1" then
+    -- the server may refuse a file (e.g. for its size); then nothing of the upload may be left
+    IO.println s!"spec {l.id} ok=0 left=0"
+    return
+  let idx := List.range files.length
+  let per := files.map fun f => toString f.lines
+  let lens := files.map fun f => toString f.len
+  let sums := files.map fun f => toString (f.sum % 4294967296)
+  let hdrs := (files.zip idx).map fun (f, i) => (Spec.UploadAtomic.header env i f.fname).toHex
+  let total := (files.map (·.lines)).sum
+  IO.println s!"spec {l.id} ok=1 nrec={total} perfile={",".intercalate per} last=1 listed=1 nfiles={files.length} lens={",".intercalate lens} sums={",".intercalate sums} hdrs={",".intercalate hdrs}"
+
 def handle (l : Line) : IO Unit := do
   if l.kind != "case" then return
   match l.getD "kind" with
   | "up" => handleUp l
   | "ids" => handleIds l
+  | "big" => handleBig l
   | "conc" =>
     -- concurrent creation: what `ids_unique_all_interleavings` promises for every schedule
     IO.println s!"spec {l.id} distinct=1 fmt=1 mono=1 rows=1 atomic=1"
